@@ -55,6 +55,10 @@ def run_shard(spec):
 # (a) concurrent creation
 
 
+def _kw_probe(channel, x):
+    channel.send(x)
+
+
 def one_ids_run(res, lab, rng, label):
     T = rng.choice((2, 3, 4, 8))
     per = rng.choice((3, 6, 12))
@@ -102,7 +106,32 @@ def one_ids_run(res, lab, rng, label):
                 errs.append("remote_status: " + repr(e))
                 return
 
-    start = threading.Barrier(2 * T + 1)
+    # ... and while some requests fail before anything is sent (an argument that cannot be serialised)
+    refused = [0]
+
+    def failing_requests():
+        lab.sched.set_role("failing")
+        from execnet.gateway_base import DumpError
+
+        try:
+            start.wait(10)
+        except threading.BrokenBarrierError:
+            return
+        while not polling.is_set():
+            try:
+                lab.gw.remote_exec(_kw_probe, x=object())
+                errs.append("remote_exec with an unserialisable argument was accepted")
+                return
+            except DumpError:
+                refused[0] += 1
+            except BaseException as e:  # noqa
+                errs.append("remote_exec with an unserialisable argument: " + repr(e))
+                return
+            time.sleep(0)
+
+    start = threading.Barrier(2 * T + 2)
+    ft = threading.Thread(target=failing_requests, daemon=True)
+    ft.start()
     ths = [threading.Thread(target=local, args=(t,), daemon=True) for t in range(T)]
     ths += [threading.Thread(target=remote, args=(t,), daemon=True) for t in range(T)]
     pt = threading.Thread(target=poller, daemon=True)
@@ -113,7 +142,9 @@ def one_ids_run(res, lab, rng, label):
         t.join(20)
     polling.set()
     pt.join(20)
+    ft.join(20)
     res.count("status_polls_during_creation", polls[0])
+    res.count("requests_refused_locally_during_creation", refused[0])
     if any(t.is_alive() for t in ths) or pt.is_alive():
         res.violation("channel-creation-hung", label)
         return
